@@ -120,6 +120,8 @@ func CheckC06(c *Ctx) {
 	run.Count("base_strategies", n)
 	run.Floor("base_strategies", 32)
 	c.buyAndHold()
+	c.defaultsWiring("defaults-wiring", "strategy")
+	run.Floor("default_constant_uses", 20)
 	for k, v := range intrinsicOffsets {
 		if strings.HasPrefix(k, "strategy/") {
 			run.Assume("intrinsic offset " + k + " = " + v.Skew + ": " + v.Why)
